@@ -23,6 +23,7 @@ machine over the text lines of a rendering, one action per loop iteration.
 import copy
 import json
 import os
+import re
 import shutil
 from concurrent.futures import ThreadPoolExecutor
 
@@ -108,10 +109,25 @@ def run_all(ctx, cfgbin, work, thorough):
     tname = "thorough" if thorough else "quick"
 
     # 1. the model of the code against Meaning, on every case x layout
-    r = run_tlc("MC_Config.tla", "MC_Config_%s.cfg" % tname, D, workers=4, coverage=True, timeout=TO, work_id="c15mc", heap="3g")
+    r = run_tlc("MC_Config.tla", "MC_Config_%s.cfg" % tname, D, workers=6, timeout=TO, work_id="c15mc", heap="4g")
     ctx.add_tlc("model of parse_conf/from_tree vs Meaning, Dev={} (%s family)" % tname, r)
     ctx.require_tlc_ok("MC_Config_%s" % tname, r)
-    ctx.require_cover("MC_Config_%s" % tname, r, ACTIONS)
+    # vacuity guard.  `-coverage 1` makes TLC re-evaluate the (large, constant) case table on every access and runs
+    # out of memory, so the per-action counts are taken from the dumped state graph of the small family instead
+    # (edges are labelled with the action that produced them).
+    dump = os.path.join(work, "graph.dot")
+    r = run_tlc("MC_Config.tla", "MC_Config_cover.cfg", D, workers=4, timeout=TO, work_id="c15cov", heap="3g", dump=dump)
+    counts = {}
+    with open(dump, errors="replace") as f:
+        for line in f:
+            m = re.search(r'->.*label="(\w+)"', line)
+            if m:
+                counts[m.group(1)] = counts.get(m.group(1), 0) + 1
+    os.remove(dump)
+    r.coverage = {a: (c, c) for a, c in counts.items()}
+    ctx.add_tlc("vacuity guard: every action of the model is taken (edge labels of the dumped graph, small family)", r)
+    ctx.require_tlc_ok("MC_Config_cover", r)
+    ctx.require_cover("MC_Config_cover", r, ACTIONS)
     r = run_tlc("MC_Config.tla", "MC_Config_live.cfg", D, workers=2, timeout=TO, work_id="c15live", heap="2g")
     ctx.add_tlc("the loader always terminates (liveness under weak fairness, small family)", r)
     ctx.require_tlc_ok("MC_Config_live", r)
